@@ -766,6 +766,11 @@ pub mod verif_access {
     ) {
         super::report_proxy_agent_service_status(output, status_folder, seq_no, status, status_state_obj)
     }
+
+    /// the monitor loop itself, as the service starts it (never returns)
+    pub async fn monitor_loop() {
+        super::monitor_thread().await
+    }
 }
 
 #[cfg(test)]
